@@ -485,6 +485,92 @@ def trace_predicates(ctx, b, dirs):
     return res
 
 
+def lk_trace_sample(ctx, dirs, k=None, runs=None, xdirs=()):
+    """Extraction + driver vs the Gallina definitions, for the trace predicates (same idea as lib/coqeval.py): on a seeded sample of
+    the real histories `lk_trace_verdict` (Model/LkTrace.v) is evaluated INSIDE Coq (Eval vm_compute) on the history as THIS file
+    reads it off observed.txt (history(run): the reading the Python oracles use) and compared with what `lkdriver trace` printed
+    (extracted code on the history as the OCaml driver reads it). Schedules on which a predicate is false are sampled first."""
+    from . import coqeval as cq
+    miss = cq.models_built(["Model/Base.v", "Model/Err.v", "Model/Lk.v", "Model/LkTrace.v"])
+    if miss:
+        return dict(sampled=0, compared=0, disagreements=[], skipped=miss)
+    k = k if k is not None else (12 if ctx.tier == "quick" else 200)
+    cands = []
+    for d in dirs:
+        tv = Path(d) / "trace_verdict.txt"
+        if not tv.exists():
+            continue
+        verdicts = {}
+        for line in tv.read_text().splitlines():
+            f = line.split()
+            if len(f) >= 9 and f[0] == "P":
+                verdicts[f[1]] = [None if kv.split("=", 1)[1] == "-" else int(kv.split("=", 1)[1].split("@")[0]) for kv in f[3:9]]
+        # runs: the schedules as run_property parsed them already ("x:" + id for the reruns with parking sentinels, directories xdirs)
+        pfx = "x:" if d in xdirs else ""
+        druns = {pfx + k_: v_ for k_, v_ in parse_observed(Path(d) / "observed.txt").items()} if runs is None else runs
+        for sid in sorted(verdicts):
+            if pfx + sid in druns:
+                cands.append((str(d), sid, verdicts[sid], druns[pfx + sid]))
+    rng = random.Random("%d/lktrace/%s" % (int(ctx.seed), ctx.prop))
+    flagged = [c for c in cands if any(v is not None for v in c[2][1:])]
+    rest = [c for c in cands if c not in flagged]
+    rng.shuffle(flagged)
+    rng.shuffle(rest)
+    chosen = flagged[:max(1, k // 2)] + rest
+    chosen = chosen[:k]
+    if not chosen:
+        return dict(sampled=0, compared=0, disagreements=[], skipped="no history to sample")
+    S, E = cq.Strs(), cq.Errs()
+    body, used = [], []
+    for d, sid, verdict, run in chosen:
+        try:
+            hist = history(run)
+            nxt = max([int(o.who[1:]) for o in hist if o.who.startswith("t")] + [0]) + 1
+            evs = []
+            for n_, o in enumerate(hist):
+                if o.who.startswith("t"):
+                    tid = int(o.who[1:])
+                else:
+                    tid, nxt = nxt, nxt + 1
+                op = ("(OUnl %s %s)" % (S.of_hex(hx(o.name)), S.of_hex(hx(o.key)))) if o.kind == "unl" else \
+                    ("(%s %s %s %s)" % ("OTry" if o.kind == "try" else "OLock", S.of_hex(hx(o.name)), S.of_hex(hx(o.key)), cq.zlit(o.size)))
+                evs.append((o.inv, 0, n_, "EvInv %s %s" % (cq.natlit(tid), op)))
+                if o.res is not None:
+                    evs.append((o.res, 1, n_, "EvRes %s (LRes %s %s)" % (cq.natlit(tid), "true" if o.ok else "false", E.opt(o.err or "~"))))
+            # real-time order: by index; at one index the invocation comes first (an epilogue call is sequential: its invocation and
+            # its response share an index), then the responses first seen in that observation block, by thread id
+            evs.sort(key=lambda e_: (e_[0], e_[1], e_[2]))
+            body.append("Eval vm_compute in (lk_trace_verdict [%s])." % "; ".join(e_[3] for e_ in evs))
+            used.append((d, sid, verdict))
+        except (cq.Untranslatable, ValueError) as ex:
+            continue
+    wd = ctx.work / "coqeval" / "lktrace"
+    shutil.rmtree(wd, ignore_errors=True)
+    wd.mkdir(parents=True)
+    f = wd / "cases.v"
+    f.write_text("From Ldlm Require Import Model.Base Model.Err Model.Lk Model.LkTrace.\n" + cq.PRINT_OPTS + "\n".join(S.defs) + "\n" + "\n".join(body) + "\n")
+    res, secs = cq.run_coqc(ctx, [f])
+    rc, out = res[0]
+    if rc != 0:
+        return dict(sampled=len(used), compared=0, disagreements=[dict(trace=used[0][1] if used else "?", what="coqc failed on the generated cases: " + out[-400:])],
+                    coqc_s=round(secs, 2), cases_file=str(f))
+    terms = cq.split_evals(out)
+    dis, compared = [], 0
+    if len(terms) != len(used):
+        dis.append(dict(trace="*", what="%d Eval results for %d cases" % (len(terms), len(used))))
+    for (d, sid, verdict), t in zip(used, terms):
+        try:
+            got = [None if x is None else x.v for x in cq.parse_term(t)]
+        except Exception as ex:  # noqa
+            dis.append(dict(trace=sid, what="unreadable Coq value: %r" % (ex,)))
+            continue
+        compared += len(got)
+        if got != verdict:
+            dis.append(dict(trace=sid, dir=d, what="lk_trace_verdict (fresh, wf, c01, once, fail, giveup): Coq %r, extracted driver %r" % (got, verdict)))
+    return dict(sampled=len(used), compared=compared, disagreements=dis, coqc_s=round(secs, 2), cases_file=str(f),
+                sampled_with_a_false_predicate=sum(1 for _d, _s, v in used if any(x is not None for x in v[1:])))
+
+
 # ---------------------------------------------------------------------------------------------- the real history
 
 class Op:
@@ -1103,6 +1189,7 @@ def run_property(ctx, prop, scenarios=None, tier=None, procs=8):
     rng = random.Random("%s/%s/exhibit" % (int(ctx.seed), prop))
     xl, xstats = gen_exhibits(runs, rng, EXHIBIT_BUDGET.get(tier, 320))
     xruns, xchk, xfail, xtp = {}, {}, [], {}
+    x_dirs = []      # directories of the reruns with parking sentinels (sampled by lk_trace_sample only)
     if xl:
         xf = b["work"] / ("exhibit-%s.txt" % prop)
         xf.write_text("".join(exhibit_text(x) for x in xl))
@@ -1134,6 +1221,7 @@ def run_property(ctx, prop, scenarios=None, tier=None, procs=8):
                 xruns["x:" + k] = v
             xchk.update({"x:" + k: v for k, v in e3["chk"].items()})
             xtp.update({"x:" + k: v for k, v in e3["tp"].items()}); tp_wall += e3["tp_wall"]
+            x_dirs += e3["dirs"]
     j2 = judge(prop, {k: v for k, v in xruns.items() if not k.startswith("x:")}, xchk, xfail, tp=xtp)
     j3 = judge(prop, {k: v for k, v in xruns.items() if k.startswith("x:")}, xchk, [], compare=False, tp=xtp)
     # the extracted Coq trace predicates (Model/LkTrace.v) on the real histories: comparison runs + exhibit runs + reruns
@@ -1243,6 +1331,7 @@ def run_property(ctx, prop, scenarios=None, tier=None, procs=8):
     try:
         from . import coqeval
         coqeval.hook(ctx, "T2-sched", coqeval.lk_sample, cq_dirs)
+        coqeval.hook(ctx, "T2-sched-trace-predicates", lk_trace_sample, cq_dirs + x_dirs, runs=runs, xdirs=x_dirs)
     except Exception as ex:  # noqa
         ctx.note("coq/driver tie T2-sched not run: %r" % (ex,))
     return dict(ok_build=True, runs=runs, chk=chk, judged=j, failures=failures, stats=gstats, reached=reached, instr=ins)
